@@ -60,6 +60,9 @@ def steady(draw):
                 p = {"id": pid, "flavour": flv, "role": kind, "program": [["beat", 5, 100000]], "end": ["forever"], "cleanup": {}}
                 if kind == "adopt":
                     p.update(draw(arguments()))
+                    shape = draw(st.sampled_from([None, None, None, None, "no-module", "partial", "instance", "method"]))
+                    if shape:
+                        p["callable"] = shape
                 elif draw(st.integers(0, 3)) == 0:
                     # the service class refines a service class that was declared for another flavour
                     p["refines"] = draw(st.sampled_from([f for f in ALL if f != flv]))
@@ -130,7 +133,16 @@ def race(draw):
         cl = {"sync_ms": draw(st.sampled_from([0, 50, 150]))}
         if flv == "trio":
             cl["shield_ms"] = draw(st.sampled_from([100, 200, 400]))
-        payloads.append({"id": pid, "flavour": flv, "role": "victim", "reg": {"how": "pre"}, "program": [["sleep", 600000]], "end": ["forever"], "cleanup": cl})
+        victim = {"id": pid, "flavour": flv, "role": "victim", "reg": {"how": "pre"}, "program": [["sleep", 600000]], "end": ["forever"], "cleanup": cl}
+        payloads.append(victim)
+        # the victim itself hands further payloads to the runtime from its cancellation cleanup
+        for _ in range(draw(st.sampled_from([0, 0, 1, 3]))):
+            pid += 1
+            p = {"id": pid, "flavour": draw(st.sampled_from(ALL + [flv])), "role": "adopt", "reg": {"how": "from-cleanup", "parent_flavour": flv},
+                 "program": [["beat", 5, 100000]], "end": ["forever"], "cleanup": {}}
+            p.update(draw(arguments()))
+            payloads.append(p)
+            cl.setdefault("adopt", []).append(pid)
     shutdown_at = draw(st.sampled_from([10, 30]))
     for d in range(draw(st.integers(1, 3))):
         script, t = [], shutdown_at - 5
